@@ -56,6 +56,17 @@ def run_all(ctx, sub, cases, spec_cases=None, py_spec=None, rule="", describe=No
     if not exe:
         return None
     impl, st = vlib.run_sharded(exe, cases, env=ASAN_ENV)
+    # a crashed / sanitizer-stopped shard shows as <no-output>: its first missing line is the input
+    # the implementation died on; record that first so that the replay names a concrete input
+    prev = ""
+    for c, a in zip(cases, impl):
+        if a.startswith("<no-output") and not prev.startswith("<no-output"):
+            msg = next((re.search(r"(ERROR: AddressSanitizer[^\n]*|[^\n]*runtime error:[^\n]*)", e).group(1)
+                        for rc, e in st if re.search(r"ERROR: AddressSanitizer|runtime error:", e)), "no sanitizer text")
+            ctx.fail(sub, "sanitizer", c, "implementation stopped on this input (crash or sanitizer report): " + msg[:200],
+                     property_fails=True)
+            break
+        prev = a
     vlib.sanitizer_reports(ctx, sub, st)
     model, _ = vlib.run_sharded(mexe, cases)
     spec = None
@@ -72,12 +83,6 @@ def run_all(ctx, sub, cases, spec_cases=None, py_spec=None, rule="", describe=No
                 if spec[i] is not None and spec[i] != o:
                     ctx.fail(sub, "tie", cases[i], "the two oracles disagree: coq-spec=%s python=%s" % (spec[i][:200], o[:200]))
                 spec[i] = o
-    # a crashed shard shows as <no-output>: name the first case of the gap
-    for c, a in zip(cases, impl):
-        if a.startswith("<no-output"):
-            ctx.fail(sub, "crash", c, "implementation produced no result (crash or sanitizer stop) at or before this case",
-                     property_fails=True)
-            break
     vlib.tri_compare(ctx, sub, cases, impl, model, spec, describe=describe)
     ctx.record(sub, cases, set(zip((c.split()[0] for c in cases), impl)), rule,
                samples=[cases[0][:120], cases[len(cases) // 2][:120]])
